@@ -448,12 +448,16 @@ class AhocorasickTokenizer(Tokenizer):
         """Override get_extractors() to filter out extractors
         that can't possibly match."""
         unique_extractors = set(self.unfiltered_extractors)
-        for _, extractors in self.case_sensitive_filter.iter(text):
-            unique_extractors.update(extractors)
-        for _, extractors in self.case_insensitive_filter.iter(
-            text.translate(CASE_INSENSITIVE_EXTRAS).lower()
-        ):
-            unique_extractors.update(extractors)
+        # (an automaton without any word cannot be searched: a custom
+        # extractor list may have no case-(in)sensitive strings at all)
+        if len(self.case_sensitive_filter):
+            for _, extractors in self.case_sensitive_filter.iter(text):
+                unique_extractors.update(extractors)
+        if len(self.case_insensitive_filter):
+            for _, extractors in self.case_insensitive_filter.iter(
+                text.translate(CASE_INSENSITIVE_EXTRAS).lower()
+            ):
+                unique_extractors.update(extractors)
         # Set iteration order depends on the process's hash seed; tokens that
         # tie on (start, end) are kept in extractor order, so make it stable
         return sorted(
